@@ -7,6 +7,12 @@
    a func is a call of that function; a func returns the union of its deps).  Cycles
    of every shape are allowed: cyclic assignment, (mutual) recursion, self reference.
 
+   An edge is realised in the rendered programs either inside one module (name use, call) or as an
+   import edge between modules (one module per node; `import m`, `from m import v`, `from m import *`):
+   a cyclic graph is then an import cycle.  Module lookup and ModuleMixin.star_imports are memoised
+   with a default stored before computing ([] for the star-import list) -- the `memo` mechanism below --
+   so re-entering a module whose star imports are being collected sees the default instead of recursing.
+
    The machine is an explicit stack of frames with jedi's guards as state:
      memo        inference_state.memoize_cache with _memoize_default: the default is
                  stored BEFORE computing, so a re-entry sees the default
